@@ -11,22 +11,28 @@ encoder the incidence matrices are built with).
 
 Float tolerances (all stated here, see DESIGN 1.4 / C17):
   ROW_TOL   rows of u sum to 1 within K*min_value_par + 1e-6 when normalizeU
-            (each of the K entries may be truncated to 0 below min_value_par; 1e-6
-            covers the 1.5e-8 default xtol of scipy.optimize.root used for the multiplier)
+            (each of the K entries may be truncated to 0 below min_value_par after the
+            normalisation; 1e-6 is far above the rounding of a K-term sum)
   ASC_TOL   L[t+1] >= L[t] - 1e-9 * (1 + |L[t]|)   (rounding of a sum of <= 50 terms)
   DEF_TOL   |maxL - L_def| <= 1e-8 * (1 + |log part| + |normalisation part|)
-            (both parts are sums of non-negative terms; the library maintains the
-            normalisation part incrementally over <= 40 * N updates)
+            (both parts are sums of <= 10 resp. K*(D-1) non-negative terms)
   exact ==  for the bookkeeping clause and the determinism clauses (same floats
             must come out of the same computation).
 
-Guard events.  The library's numerical guards (negative psiBarOmega / psiOmega
-entries zeroed or flipped, node update skipped, u clipped at max_value_par)
-are counted by an add-only hook (module attribute ``GUARD_EVENTS`` of
-hypergraphx.communities.hypergraph_mt.model, active only under HGX_VERIF=1).
-A decrease of the likelihood or a disagreement with the definition in a run
-WITHOUT guard events is a violation.  Runs in which a guard fired are handled as
-described at ``_guard_policy``.
+Guard events.  An add-only hook (module attributes ``GUARD_EVENTS`` / ``GUARD_LOG`` of
+hypergraphx.communities.hypergraph_mt.model, active only under HGX_VERIF=1) records, in
+order and separated by "realization_started" / "loglik_evaluated" markers, every firing of
+the numerical guards of the EM routine.  They are used for *attribution* only:
+
+  * mt_definition demands agreement of the returned likelihood with the definition in EVERY
+    run (after the repair of _LogLikelihood no exclusion is needed);
+  * mt_ascent demands L[t+1] >= L[t] for every pair of iterations of a realisation that
+    precedes the first *precision-loss* event of that realisation (a subtractive update of
+    psiOmega / psiBarOmega produced a negative number, i.e. an elementary symmetric
+    polynomial lost all relative accuracy, see PRECISION_LOSS below).  Comparisons after that
+    point belong to the known finding "psi-cancellation"; they are excluded by construction,
+    counted (``ctx.exclude``) and decreases seen there are labelled
+    ``known:descent_after_precision_loss``.  A decrease before any such event is a violation.
 """
 
 import math
@@ -60,8 +66,12 @@ ASSUMPTIONS = [
     "rows of nodes that belong to a hyperedge must be non-zero (and sum to 1) when normalizeU=True "
     "(fit docstring: every row sums to 1); for normalizeU=False a zero row of such a node is "
     "only classified (the statement asks for zero rows of isolated nodes, not the converse)",
-    "ascent is demanded for normalizeU=False and min_value_par in {1e-5, 0}; a decrease is "
-    "attributed with the HGX_VERIF guard-event counters (see module docstring)",
+    "ascent is demanded for normalizeU=False and min_value_par in {1e-5, 0}, for every pair of "
+    "consecutive iterations of a realisation that precedes the realisation's first precision-loss "
+    "guard event (psiBarOmega_zeroed / psiBarOmega_negative_skip / psiOmega_zeroed / "
+    "psiOmega_flipped, reported by the HGX_VERIF hook); later pairs are the known finding "
+    "psi-cancellation, excluded by construction and counted; truncation at min_value_par and the "
+    "clip at max_value_par excuse nothing",
     "stdout of the library (verbose=True in a fraction of the cases, unconditional prints of "
     "_update_psiOmega) is captured by the engine and never inspected",
 ]
